@@ -142,7 +142,7 @@ func (s *soak) oneCall(rng *rand.Rand) {
 	m := ms[rng.Intn(len(ms))]
 	tok := h.NewToken()
 	pad := rng.Intn(64)
-	if s.o.Oversize && rng.Intn(12) == 0 {
+	if s.o.Oversize && rng.Intn(6) == 0 {
 		pad = 64 << 10
 		st.oversize.Add(1)
 	}
